@@ -41,8 +41,27 @@ def resume_case(sc):
         kopf.on.update(GROUP, VERSION, PLURAL, registry=reg, id='u')(mk('u'))
         kopf.on.create(GROUP, VERSION, PLURAL, registry=reg, id='u')(mk('u'))
         sim.create('o1', {'x': 0})
-        ops = [sim.operator('op1', reg, sim.settings())]
+        # `patchfail`: the PATCH that CLOSES the resume cycle of the process that follows the first restart (records purged / last-handled
+        # written) is answered 500 and not retried: processing fails and is throttled, events keep coming -- the handlers have all run to
+        # completion in this process and are not run again. (A lost write of an UNFINISHED cycle does repeat handlers, by design: the
+        # records are the memory; such faults are outside the histories the property quantifies over and are not injected.)
+        tune = {'networking__error_backoffs': [], 'queueing__error_delays': [1, 1]} if sc.get('patchfail') else {}
+        ops = [sim.operator('op1', reg, sim.settings(**tune))]
         n = {'op': 1}
+        if sc.get('patchfail'):
+            from sim.fakek8s import Fault, Plan
+            cnt = {'n': 0}
+
+            def policy(req):
+                if req.route.get('kind') == 'patch' and req.route.get('name') == 'o1' and req.session.owner == 'op2' and not cnt['n']:
+                    ann = ((req.body or {}).get('metadata') or {}).get('annotations') or {} if isinstance(req.body, dict) else {}
+                    closing = any(k_.startswith('kopf.zalando.org/') and not k_.endswith('touch-dummy') and (v_ is None or k_.endswith('last-handled-configuration'))
+                                  for k_, v_ in ann.items())
+                    if closing:
+                        cnt['n'] = 1
+                        return Plan(fault=Fault('status', code=500))
+                return None
+            sim.srv.policy = policy
 
         def restart():              # graceful stop now; the next process starts once this one has returned (never nested in a world event)
             old = ops[-1]
@@ -55,7 +74,7 @@ def resume_case(sc):
                 if ops[-1] is old:
                     n['op'] += 1; fresh()
                     sim.rec('env.restart')
-                    ops.append(sim.operator(f'op{n["op"]}', reg, sim.settings()))
+                    ops.append(sim.operator(f'op{n["op"]}', reg, sim.settings(**tune)))
             sim.world.at(sim.now + 1, start_when_down, 1)
         for (t, what) in sc['env']:
             if what == 'edit':
@@ -100,6 +119,10 @@ def resume_scenarios(seed, n):
     for k, (d1, d2) in enumerate(((1, 0), (1, 1), (2, 1), (3, 1))):
         out.append({'id': f'resume2-relist-{k}', 'r1': ['ok'], 'r2': ['ok'], 'u': ['ok'], 'delay': 3, 'hdur': 3,
                     'env': [(10, 'restart'), (12 + d1, 'relist'), (12 + d1 + 3 + d2, 'relist')], 'end': 60})
+    # the PATCH that ends (or continues) the resume cycle of the second process is lost; events keep coming in that process
+    for k, r2s in enumerate((['ok'], ['temp', 'ok'], ['temp', 'temp', 'ok'])):
+        out.append({'id': f'resume2-patchfail-{k}', 'r1': ['ok'], 'r2': r2s, 'u': ['ok'], 'delay': 3, 'patchfail': 'closing',
+                    'env': [(5, 'restart'), (20, 'relist'), (24, 'edit'), (30, 'relist')], 'end': 70})
     for k in range(n):
         env = []; t = 0
         for _ in range(rnd.randint(1, 5)):
